@@ -82,6 +82,13 @@ def KState.regularOutputs (s : KState) (step : Key) : List String :=
     | some n => if n.key.kind = .file ∧ lookupRegularOutput n.fstate n.detached then some k.label else none
     | none => none
 
+/-- Attached steps two dependency hops downstream of `k` (the file in between is not filtered). -/
+def KState.consumerSteps (s : KState) (k : Key) : List Node :=
+  ((s.sinksOf k).flatMap s.sinksOf).filterMap fun c =>
+    match s.find? c with
+    | some m => if m.key.kind = .step ∧ !m.detached then some m else none
+    | none => none
+
 /-- The new `(_implied_need, _tail_time)` of one step as `UPDATE_CHECK_AFTER` computes it. -/
 def KState.afterValues (s : KState) (cfg : KConfig) (n : Node) : Need × Nat :=
   let outs := s.regularOutputs n.key
@@ -89,12 +96,7 @@ def KState.afterValues (s : KState) (cfg : KConfig) (n : Node) : Need × Nat :=
     if outs.any cfg.targets.contains then .target
     else if n.need = .default ∧ outs.any (fun o => cfg.targetDirs.any fun d => underDir d o) then .target
     else .optional
-  -- attached sink steps two hops downstream (the file in between is not filtered)
-  let mids := s.sinksOf n.key
-  let sinkSteps := (mids.flatMap s.sinksOf).filterMap fun k =>
-    match s.find? k with
-    | some m => if m.key.kind = .step ∧ !m.detached then some m else none
-    | none => none
+  let sinkSteps := s.consumerSteps n.key
   let need := sinkSteps.foldl (fun acc m => acc.max m.impliedNeed) (n.need.max targetTerm)
   let tail := 1 + sinkSteps.foldl (fun acc m => Nat.max acc m.tail) 0
   (need, tail)
